@@ -206,42 +206,35 @@ func ExtractProtocol(p *core.Prog, rel string) *Protocol {
 	}
 	// StoreMessage table
 	if sm := pr.PartyFns["StoreMessage"]; sm != nil {
-		for _, b := range sm.Blocks {
-			for _, in := range b.Instrs {
-				st, ok := in.(*ssa.Store)
-				if !ok {
-					continue
-				}
-				ia, ok := st.Addr.(*ssa.IndexAddr)
-				if !ok {
-					continue
-				}
-				arr := core.LastFields(ia.X, 1)
-				if !contains(pr.Arrays, arr) {
-					continue
-				}
-				ctype := ""
-				for _, f := range core.FactsAt(b) {
-					if f.Kind == core.FBool && f.Bool {
-						if ex, ok := core.Strip(f.X).(*ssa.Extract); ok && ex.Index == 1 {
-							if ta, ok := ex.Tuple.(*ssa.TypeAssert); ok {
-								ctype = typeName(ta.AssertedType)
-							}
+		for _, as := range messageArrayStores(pr, sm) {
+			st, ia, arr := as.Store, as.IA, as.Array
+			ctype := ""
+			for _, f := range core.FactsAt(as.At) {
+				if f.Kind == core.FBool && f.Bool {
+					if ex, ok := core.Strip(f.X).(*ssa.Extract); ok && ex.Index == 1 {
+						if ta, ok := ex.Tuple.(*ssa.TypeAssert); ok {
+							ctype = typeName(ta.AssertedType)
 						}
 					}
 				}
-				if ctype == "" {
-					pr.Errs = append(pr.Errs, "StoreMessage: store into "+arr+" not under a content type case")
-					continue
+			}
+			if ctype == "" {
+				// `case *A, *B:` bodies and phi-selected slots: the types established on the incoming edges
+				if ts := assertedTypesAt(as.At); len(ts) == 1 {
+					ctype = ts[0]
 				}
-				if prev, dup := pr.StoreTab[ctype]; dup && prev != arr {
-					pr.Errs = append(pr.Errs, "StoreMessage: "+ctype+" stored in two arrays")
-				}
-				pr.StoreTab[ctype] = arr
-				pr.StoreIdx[ctype] = descr(ia.Index)
-				if core.Strip(st.Val) != ssa.Value(sm.Params[1]) {
-					pr.Errs = append(pr.Errs, "StoreMessage: value stored for "+ctype+" is not the message")
-				}
+			}
+			if ctype == "" {
+				pr.Errs = append(pr.Errs, "StoreMessage: store into "+arr+" not under a content type case")
+				continue
+			}
+			if prev, dup := pr.StoreTab[ctype]; dup && prev != arr {
+				pr.Errs = append(pr.Errs, "StoreMessage: "+ctype+" stored in two arrays")
+			}
+			pr.StoreTab[ctype] = arr
+			pr.StoreIdx[ctype] = descr(ia.Index)
+			if core.Strip(st.Val) != ssa.Value(sm.Params[1]) {
+				pr.Errs = append(pr.Errs, "StoreMessage: value stored for "+ctype+" is not the message")
 			}
 		}
 	}
